@@ -615,6 +615,8 @@ func genSolidCollider(rng *rand.Rand, kind int) *primShape {
 		base.variant = fmt.Sprintf("Rect lo=%v hi=%v", lo, hi)
 		lo4, hi4 := i3scale(lo, 4), i3scale(hi, 4)
 		boxSpecials(base, lo4, hi4, 3, rng)
+		// rays through an edge or inside a face plane are not in general position
+		base.boxEdges, base.data = true, []int{lo4[0], lo4[1], lo4[2], hi4[0], hi4[1], hi4[2]}
 	case 1:
 		c := [3]int{ri(rng, -2, 2), ri(rng, -2, 2), ri(rng, -2, 2)}
 		r := ri(rng, 1, 3)
@@ -629,6 +631,7 @@ func genSolidCollider(rng *rand.Rand, kind int) *primShape {
 		base, solid = adapt3("", "", cy), cy
 		base.variant = fmt.Sprintf("Cylinder p1=%v h=%d r=%d", p1, h, r)
 		base.special = append(base.special, primSpecial{i3scale(p1, 4), "centre"})
+		base.circles = []primCircle{{i3f(p1), pvec{0, 0, 1}, float64(r)}, {i3f([3]int{p1[0], p1[1], p1[2] + h}), pvec{0, 0, 1}, float64(r)}}
 	}
 	eps := []float64{1.0 / 64, 1.0 / 16, 3.0 / 128}[kind/3%3]
 	sc := &model3d.SolidCollider{Solid: solid, Epsilon: eps}
@@ -638,7 +641,7 @@ func genSolidCollider(rng *rand.Rand, kind int) *primShape {
 	s := base
 	s.site = "model3d.SolidCollider"
 	s.variant += fmt.Sprintf(" eps=%g", eps)
-	s.shape, s.data = "none", nil
+	s.shape = "none"
 	s.approx = eps
 	s.bounds = func() (pvec, pvec) { return c3v(sc.Min()), c3v(sc.Max()) }
 	s.rays = func(or, d pvec, cb bool) (int, []primHit) {
@@ -1552,6 +1555,30 @@ func primRunCollider(id int, s *primShape, rng *rand.Rand, nrays, nballs int) pr
 		d := randAxis(rng, s.dim)
 		k := ri(rng, 0, 3)
 		rays = append(rays, rq{i3add(sp.q, i3scale(d, -4*k)), d, exps[rng.Intn(len(exps))]})
+	}
+	if s.approx > 0 {
+		// sampling colliders: axis-parallel rays through the middle of the bounds, whose path inside a
+		// box is a whole number of sampling steps, with direction lengths k * 2^e (the step count is
+		// then only known up to rounding)
+		var c4 [3]int
+		for i := 0; i < 3; i++ {
+			c4[i] = int(math.Round(2 * (mn[i] + mx[i])))
+		}
+		for a := 0; a < 3; a++ {
+			for _, k := range []int{1, 3, 5, 7, -3} {
+				for _, e := range []int{0, -30, -40, 10, 33} {
+					var d, o4 [3]int
+					d[a] = k
+					o4 = c4
+					if k > 0 {
+						o4[a] = int(math.Floor(4*mn[a])) - 4
+					} else {
+						o4[a] = int(math.Ceil(4*mx[a])) + 4
+					}
+					rays = append(rays, rq{o4, d, e})
+				}
+			}
+		}
 	}
 	for _, r := range rays {
 		var o primRayQ
